@@ -18,13 +18,20 @@
    attribute that is not allowed, keeps the other in place and appends the dropped one again at
    the end (href target rel).  The witness is computed on the model and replayed on the
    implementation (known finding F15).
-   Missing: the premise for elements with URL attributes / forced attributes when the policy
-   allows all or none of the forced attributes (it needs the net/url stability hypothesis U5 and
-   the rel-token lemmas composed through both runs); carried by the idempotence oracle on every
-   generated case of the stated policy class (link grid included), StrictPolicy and UGCPolicy. *)
+   The premise is PROVED (C20_attrs_stable_forced_rejected, Proofs/AttrIdemLinks.v) for every link /
+   URL element on which the policy allows NONE of the forced attributes and attaches no pattern to
+   the URL attribute, under the net/url stability hypothesis U5 (a value validURL returned is
+   returned unchanged when validated again: a hypothesis about the oracle, monitored by the
+   harness): the second pass drops the forced attributes, finds the rest unchanged and forces the
+   same attributes again.  Hence C20_idempotent_stable_elements (whole documents, every such
+   policy) and C20_ugc (UGCPolicy as regenerated from policies.go, every input without area, del
+   and ins tags: the three UGC elements that carry a patterned rel or cite).
+   Missing: elements on which the policy allows ALL forced attributes, and UGC's area / del / ins;
+   carried by the idempotence oracle on every generated case of the stated policy class (link grid
+   included), StrictPolicy and UGCPolicy. *)
 From Coq Require Import List NArith Bool.
 Import ListNotations.
-From BM Require Import Bytes Escape Tokenizer Policy Attrs Loop LoopProps EscapeProofs LinkProofs MiscProofs SanRoundTrip PassThrough AttrIdem Builder GenScripts C04Inst PlainInst.
+From BM Require Import Bytes Escape Tokenizer Policy Attrs Loop LoopProps EscapeProofs LinkProofs MiscProofs Url Style MapProofs SanRoundTrip PassThrough AttrIdem AttrProvenance AttrIdemLinks Builder GenTables GenScripts UGCSpec C04Inst PlainInst.
 
 Theorem C20_escaping_not_applied_twice_partial : forall d,
   render_item (IText (unescape false (render_item (IText d)))) = render_item (IText d).
@@ -60,6 +67,47 @@ Proof.
   intros M U R I p Hplain Hnc Hel. apply (sanitize_idempotent I p Hplain Hnc).
   intros n a aps Hp. assert (Ha : elem_allowed I p n = true) by (rewrite element_policies_allowed, Hp; reflexivity).
   destruct (Hel n Ha) as [H1 H2]. apply clean_attrs_idem_plain; assumption.
+Qed.
+
+(* the premise for link / URL elements whose forced attributes the policy does not allow *)
+Theorem C20_attrs_stable_forced_rejected : forall M U R (I : interp M U R) (p : policy M U R),
+  srcRewriter p = None -> (forall raw u, valid_url I p raw = Some u -> valid_url I p u = Some u) ->
+  forall n aps a, has_style_policies I p n = false -> elem_stable_b p n aps = true ->
+  clean_attrs I p n (clean_attrs I p n a aps) aps = clean_attrs I p n a aps.
+Proof. intros M U R I p Hrw Hst n aps a. exact (elem_stable_sound I p Hrw Hst n aps a). Qed.
+
+Theorem C20_idempotent_stable_elements : forall M U R (I : interp M U R) (p : policy M U R),
+  plain_policy I p -> allowComments p = false -> srcRewriter p = None ->
+  (forall raw u, valid_url I p raw = Some u -> valid_url I p u = Some u) ->
+  forall s,
+  (forall n a aps, In (TStart n a) (tokenize s) \/ In (TSelf n a) (tokenize s) -> element_policies I p n = Some aps ->
+     has_style_policies I p n = false /\ elem_stable_b p n aps = true) ->
+  sanitize_bytes I p (sanitize_bytes I p s) = sanitize_bytes I p s.
+Proof.
+  intros M U R I p Hplain Hnc Hrw Hst s Hel. apply (sanitize_idempotent_on I p Hplain Hnc).
+  intros n a aps Hin Hp. destruct (Hel n a aps Hin Hp) as [H1 H2]. apply (elem_stable_sound I p Hrw Hst); assumption.
+Qed.
+
+(* UGCPolicy: every element but area, del and ins meets the condition *)
+Definition ugc_unstable : list bytes := [B"area"; B"del"; B"ins"].
+Lemma ugc_elements_stable : forallb (fun e => mem (fst e) ugc_unstable || elem_stable_b ugc (fst e) (snd e)) (elsAndAttrs ugc) = true.
+Proof. vm_compute. reflexivity. Qed.
+
+Theorem C20_ugc : forall (I : interp smatcher unit unit),
+  (forall raw u, valid_url I ugc raw = Some u -> valid_url I ugc u = Some u) ->
+  forall s,
+  (forall n a, In (TStart n a) (tokenize s) \/ In (TSelf n a) (tokenize s) -> mem n ugc_unstable = false) ->
+  sanitize_bytes I ugc (sanitize_bytes I ugc s) = sanitize_bytes I ugc s.
+Proof.
+  intros I Hst s Hno. destruct ugc_url_settings as (_ & _ & _ & Hrw & _).
+  apply (C20_idempotent_stable_elements _ _ _ I ugc (ugc_plain I) ugc_no_comments Hrw Hst).
+  intros n a aps Hin Hp. split.
+  - destruct ugc_no_styles_no_data as (E1 & E2 & E3 & _). unfold has_style_policies. rewrite E1, E2, E3. reflexivity.
+  - assert (Hl : lookup n (elsAndAttrs ugc) = Some aps).
+    { unfold element_policies in Hp. destruct (lookup n (elsAndAttrs ugc)); [exact Hp|].
+      unfold match_regex, matching_entries in Hp. rewrite ugc_no_patterns in Hp. cbn in Hp. discriminate. }
+    pose proof ugc_elements_stable as T. rewrite forallb_forall in T. specialize (T _ (lookup_In_gen _ _ _ Hl)). cbn [fst snd] in T.
+    rewrite (Hno n a Hin) in T. exact T.
 Qed.
 
 Theorem C20_strict : forall (I : interp smatcher unit unit) s,
@@ -98,6 +146,8 @@ Print Assumptions C20_escaping_not_applied_twice_partial.
 Print Assumptions C20_refuted_forced_attr_order.
 Print Assumptions C20_idempotent_if_attrs_stable.
 Print Assumptions C20_strict.
+Print Assumptions C20_idempotent_stable_elements.
+Print Assumptions C20_ugc.
 Print Assumptions C20_attrs_stable_plain_elements.
 Print Assumptions C20_idempotent_plain_elements.
 Print Assumptions C20_rel_tokens_not_repeated.
